@@ -1,0 +1,79 @@
+//go:build verif
+
+// Contracts for package tabular, checked by /verif (govc). Comment-only: this
+// file contributes nothing to the compiled package and is only read when the
+// `verif` build tag is set.
+
+package tabular
+
+//@ -- ---------------------------------------------------------------------
+//@ -- error containers (C11)
+//@ -- ---------------------------------------------------------------------
+
+//@ -- nonnil(ec): the container's list has no nil entry (W8)
+//@ pred nonnil(ec *ErrorContainer) = ec != nil ==> forall i int :: {ec.errors_[i]} 0 <= i && i < len(ec.errors_) ==> ec.errors_[i] != nil
+
+//@ -- nn(h, el, i): number of non-nil entries among el[0..i) in heap h
+//@ spec rec nn(h (Array Loc Iface), el Slice, i int) int = i <= 0 ? 0 : nn(h, el, i-1) + (h[elemloc(el, i-1)] != nil ? 1 : 0)
+
+//@ lemma nn_bounds(h (Array Loc Iface), el Slice, i int)
+//@   requires 0 <= i
+//@   ensures 0 <= nn(h, el, i) && nn(h, el, i) <= i
+//@   decreases i
+//@   unfold nn(h, el, i)
+//@   use nn_bounds(h, el, i-1)
+//@   tags C11
+
+//@ lemma nn_mono(h (Array Loc Iface), el Slice, a int, c int)
+//@   requires 0 <= a && a < c
+//@   ensures nn(h, el, a) + (h[elemloc(el, a)] != nil ? 1 : 0) <= nn(h, el, c) && nn(h, el, a) >= 0
+//@   decreases c
+//@   unfold nn(h, el, c)
+//@   use nn_mono(h, el, a, c-1)
+//@   use nn_bounds(h, el, a)
+//@   tags C11
+
+//@ func NewErrorContainer
+//@   tags C11,C09
+//@   assigns nothing
+//@   ensures result != nil && fresh(result) && len(result.errors_) == 0 && result.errors_ != nil && fresh(result.errors_)
+
+//@ func (*ErrorContainer).AddError
+//@   tags C11,C09
+//@   assigns ec.errors_, elemscap(ec.errors_)
+//@   ensures [nil-receiver] ec == nil ==> true
+//@   ensures [nil-error-noop] ec != nil && err == nil ==> ec.errors_ == old(ec.errors_)
+//@   ensures [appended] ec != nil && err != nil ==> len(ec.errors_) == old(len(ec.errors_)) + 1 && ec.errors_[len(ec.errors_)-1] == err
+//@   ensures [prefix] ec != nil ==> forall i int :: {ec.errors_[i]} {old(ec.errors_[i])} 0 <= i && i < old(len(ec.errors_)) ==> ec.errors_[i] == old(ec.errors_[i])
+//@   ensures [no-nil] old(nonnil(ec)) ==> nonnil(ec)
+//@   ensures [arr] ec != nil ==> ec.errors_.arr == old(ec.errors_.arr) || fresh(ec.errors_)
+
+//@ func (*ErrorContainer).AddErrorList
+//@   tags C11,C09
+//@   requires [disjoint] ec != nil ==> len(el) == 0 || el.arr != ec.errors_.arr
+//@   assigns ec.errors_, elemscap(ec.errors_)
+//@   ensures [count] ec != nil ==> len(ec.errors_) == old(len(ec.errors_)) + nn(old(heap[error]), el, len(el))
+//@   ensures [prefix] ec != nil ==> forall i int :: {ec.errors_[i]} {old(ec.errors_[i])} 0 <= i && i < old(len(ec.errors_)) ==> ec.errors_[i] == old(ec.errors_[i])
+//@   ensures [in-order] ec != nil ==> forall k int :: {el[k]} 0 <= k && k < len(el) && old(el[k]) != nil ==> ec.errors_[old(len(ec.errors_)) + nn(old(heap[error]), el, k)] == old(el[k])
+//@   ensures [no-nil] old(nonnil(ec)) ==> nonnil(ec)
+//@   ensures [list-untouched] forall k int :: {el[k]} {old(el[k])} 0 <= k && k < len(el) ==> el[k] == old(el[k])
+//@   ensures [not-adopted] ec != nil && len(el) > 0 ==> ec.errors_.arr != el.arr
+//@   loop#1 invariant -1 <= rangeindex && rangeindex < len(el) && ec != nil
+//@   loop#1 invariant len(ec.errors_) == old(len(ec.errors_)) + nn(old(heap[error]), el, rangeindex+1)
+//@   loop#1 invariant forall i int :: {ec.errors_[i]} {old(ec.errors_[i])} 0 <= i && i < old(len(ec.errors_)) ==> ec.errors_[i] == old(ec.errors_[i])
+//@   loop#1 invariant forall k int :: {nn(old(heap[error]), el, k)} 0 <= k && k <= rangeindex && old(el[k]) != nil ==> ec.errors_[old(len(ec.errors_)) + nn(old(heap[error]), el, k)] == old(el[k])
+//@   loop#1 invariant forall k int :: {el[k]} {old(el[k])} 0 <= k && k < len(el) ==> el[k] == old(el[k])
+//@   loop#1 invariant old(nonnil(ec)) ==> nonnil(ec)
+//@   loop#1 invariant len(el) > 0 ==> ec.errors_.arr != el.arr
+//@   loop#1 invariant (ec.errors_.arr == old(ec.errors_.arr) && ec.errors_.off == old(ec.errors_.off) && ec.errors_.cap == old(ec.errors_.cap)) || fresh(ec.errors_)
+//@   loop#1 decreases len(el) - rangeindex
+//@   loop#1 unfold nn(old(heap[error]), el, rangeindex+2)
+//@   loop#1 use nn_bounds(old(heap[error]), el, rangeindex+1)
+//@   loop#1 use forall k int :: {nn(old(heap[error]), el, k)} nn_mono(old(heap[error]), el, k, rangeindex+1)
+//@   entry unfold nn(heap[error], el, 0)
+
+//@ func (*ErrorContainer).Errors
+//@   tags C11,C09
+//@   assigns nothing
+//@   ensures [nil-when-empty] (ec == nil || len(ec.errors_) == 0) ==> result == nil
+//@   ensures [the-list] ec != nil && len(ec.errors_) > 0 ==> result == ec.errors_
